@@ -77,6 +77,14 @@ def p_other_objects(s):
             o.compare(o)
         except Exception:  # noqa
             pass
+    # file names that hold the string as their version part, valid or not, parsed by the package module in between
+    from debian_inspector import package
+    for fn, cls in (('foo_%s.orig.tar.gz' % t, package.CodeArchive), ('foo_%s (copy).orig.tar.gz' % t, package.CodeArchive),
+                    ('foo_%s_all.deb' % t, package.DebArchive), ('foo_x%s.dsc' % t, package.CodeMetadata)):
+        try:
+            cls.from_filename(fn)
+        except Exception:  # noqa
+            pass
     for near in (t + '-0', t + '-1', '0:' + t, t.lower(), t.upper()):
         try:
             str(Version.from_string(near))
@@ -165,6 +173,8 @@ def run(ctx):
                        [('compare_versions', [rng.choice(['1', '2:0', '']), s]) for s in ep[::2]], impl)
     bad += ctx.compare('corr:eval_constraint:any-strings', [('eval_constraint', [s, rng.choice(['>=', '<<', '=', '<', '>', '<=', '>>']), rng.choice(['1', s])]) for s in ep[::2]], impl)
     fails = ctx.prop('prop:accept/reject/decompose', allc, p_accept)
+    # digit runs and component counts beyond every limit of the interpreter (implementation side only)
+    fails += ctx.prop('prop:accept/reject/decompose:long', _ver.BIG + _ver.LONG + ['1.' + '9' * n + rest for n in (4300, 4301, 20000) for rest in ('', 'a', '-1', '-' + '7' * 4301)], p_accept)
     fails += ctx.prop('prop:independent-of-other-objects', (small[::7] + acc + rej[::3] + syn)[:ctx.n(20000, 200000)], p_other_objects)
     fails += ctx.prop('prop:every-entry-point-accepts-the-same-strings', (small[::11] + acc[::5] + rej[::3] + ws[::3] + syn + pos[::40])[:ctx.n(15000, 150000)], p_entry_points)
     st = ctx.stream('prop:accept/reject/decompose')
